@@ -223,8 +223,8 @@ func (c *Ctx) execAssign(env *Env, x *ast.AssignStmt, st *State) {
 			vals = []Val{v, boolVal(c.fresh("tassert_ok", "Bool"))}
 		case *ast.UnaryExpr:
 			if r.Op == token.ARROW {
-				c.unsupported("%s: channel receive", c.e.pos(r.Pos()))
-				return
+				v := env.eval(r, st)
+				vals = []Val{v, boolVal(c.fresh("recv_ok", "Bool"))}
 			}
 		}
 		if vals == nil {
